@@ -6,6 +6,7 @@ usage: benign_eval.py <agent-worktree> <set-id>        e.g. benign_eval.py /tmp/
   3. store patch + verdicts under /verif/benign/<set-id>/."""
 import json, os, shutil, subprocess, sys, glob
 wt, sid = sys.argv[1], sys.argv[2]
+PHASE = os.environ.get("PHASE", "all")   # confirm | checks | all  (confirm can run in parallel for several sets; checks touch /repo and must be serial)
 env = dict(os.environ, GOPROXY="off", GOSUMDB="off", GOTOOLCHAIN="local")
 env.pop("GOFLAGS", None); env.pop("GOWORK", None)
 def sh(cmd, cwd=None, check=False):
@@ -26,18 +27,29 @@ results = []
 for pf in sorted(glob.glob(os.path.join(bd, "p*.diff"))):
     name = os.path.basename(pf)
     cf = f"/tmp/bn_{sid}"
-    sh(f"git -C /repo worktree remove --force {cf}")
-    sh(f"git -C /repo worktree add -q --detach {cf} HEAD", check=True)
-    try:
+    cj = os.path.join(out, name + ".confirm.json")
+    if PHASE == "checks" and os.path.exists(cj):
+        cd = json.load(open(cj)); suite_ok, touched = cd["suite_ok"], cd["touched"]
+        if not cd.get("applies", True):
+            results.append({"patch": name, "applies": False}); continue
+    else:
+      sh(f"git -C /repo worktree remove --force {cf}")
+      sh(f"git -C /repo worktree add -q --detach {cf} HEAD", check=True)
+      try:
         ap = sh(f"git apply {pf}", cwd=cf)
         if ap.returncode != 0:
+            json.dump({"applies": False, "suite_ok": False, "touched": []}, open(cj, "w"))
             results.append({"patch": name, "applies": False}); print(sid, name, "does not apply"); continue
         touched = sh("git diff --name-only", cwd=cf).stdout.split()
         bad = [t for t in touched if t.endswith("_test.go") or t.endswith(".pb.go")]
         r = sh("go build ./... && go test -vet=off -count=1 ./x/... ./contrib/...", cwd=cf)
         suite_ok = r.returncode == 0 and not bad
-    finally:
+        json.dump({"applies": True, "suite_ok": suite_ok, "touched": touched}, open(cj, "w"))
+      finally:
         sh(f"git -C /repo worktree remove --force {cf}")
+    shutil.copy(pf, os.path.join(out, name))
+    if PHASE == "confirm":
+        print(sid, name, "suite_ok" if suite_ok else "SUITE-FAILS"); continue
     alarms = {}
     if suite_ok:
         assert sh("git -C /repo status --porcelain").stdout.strip() == "", "/repo not clean"
@@ -55,5 +67,7 @@ for pf in sorted(glob.glob(os.path.join(bd, "p*.diff"))):
            "why_equivalent": readme.get(name, {}).get("why_equivalent"), "alarms": alarms, "silent": suite_ok and not alarms}
     results.append(res)
     print(sid, name, "suite_ok" if suite_ok else "SUITE-FAILS", "SILENT" if not alarms else "ALARM " + json.dumps(alarms)[:600])
-json.dump(results, open(os.path.join(out, "results.json"), "w"), indent=1)
+if PHASE != "confirm":
+    json.dump(results, open(os.path.join(out, "results.json"), "w"), indent=1)
+    for f in glob.glob(os.path.join(out, "*.confirm.json")): os.remove(f)
 sh("git -C /verif checkout -- evidence 2>/dev/null; rm -rf /verif/evidence/violations")
